@@ -37,6 +37,15 @@ Theorem adversary_derives_only_safe_terms : forall c ops t,
 Proof. intros c ops. apply derivable_safe. apply knowledge_safe. Qed.
 Print Assumptions adversary_derives_only_safe_terms.
 
+(* API RESULTS: whatever an operation returns besides opaque handles is an id — the thumbprint (a digest) of a public
+   key, or a random / caller-chosen string — or a public key; the correspondence rebuilds every returned id and every
+   exported public key of the real key manager as such a term without going through it (the exported coordinates must
+   be fields of the public key proto that Tink's key manager derives from the decrypted private key) *)
+Theorem api_results_are_ids_and_public_keys : forall ops t,
+  In t (outs (run init ops)) -> (exists k, t = Kdf [Pub k]) \/ (exists p, t = Junk p) \/ (exists k, t = Pub k).
+Proof. intros ops. apply run_outs_public. intros t []. Qed.
+Print Assumptions api_results_are_ids_and_public_keys.
+
 (* STORED FORM: every value ever written is an envelope: keyset under a DEK, DEK under the master key *)
 Theorem every_stored_value_is_an_envelope : forall ops v,
   In v (writes (run init ops)) -> exists d keys, v = sval d keys.
@@ -147,7 +156,7 @@ Print Assumptions constant_wrapping_key_would_leak.
 
 (* non-vacuity: a history writing four envelopes, with an import, a rotation and exports *)
 Example no_secret_leaks_nonvacuous :
-  let st := run init [Create true; Import 8001; Rotate 0; Reopen; CreateExport false; Export 2; Get 1] in
+  let st := run init [Create true; Import 8001 true; Rotate 0; Reopen; CreateExport false; Export 2; Get 1] in
   length (writes st) = 4%nat /\
   nth 2%nat (writes st) empty = sval (dk 2) [ka 0; ka 2] /\
   sval (dk 2) [ka 0; ka 2] = Tup [AEnc (Bytes 15) empty (Tup [Bytes 5; Bytes 13]); AEnc master empty (Bytes 15);
